@@ -89,7 +89,7 @@ func objVar(info *types.Info, id *ast.Ident) *types.Var {
 }
 
 func checkC12(r *core.Run) {
-	r.Explain = "Decided statically, every obligation exact: (C12.registry) every type implementing codec.Codec's three methods is registered in codec.Init, its GetMessageType constant equals GetTypeCode of the message type its Encode asserts and its Decode returns, and every message type the client constructs or asserts outside the codec package has a codec; (C12.mirror) for each codec the extracted encode layout (wire kind, field, guard, scale) equals the decode layout, with inverse scaling; (C12.layout) the extracted layout equals the hand-written Seata v1 field table in spec/seata_v1_layout.json; (C12.bound) a string written with an N-bit length prefix after a truncation is truncated to a constant <= 2^(N-1)-1; (C12.frame) CodecManager.Encode prepends the 16-bit type code of the message and Decode dispatches on it and hands in[2:] to the codec. (C12.helpers) each length-prefixed string writer of pkg/util/bytes writes, as its prefix, the byte length len(value) of the string it then writes in full, and each reader allocates a fresh buffer of exactly the prefix it read, fills it from the frame and returns a copy (string(p)); the package does not import unsafe. NOT decided: field values beyond the prefix limits other than the truncated message text."
+	r.Explain = "Decided statically, every obligation exact: (C12.registry) every type implementing codec.Codec's three methods is registered in codec.Init, its GetMessageType constant equals GetTypeCode of the message type its Encode asserts and its Decode returns, and every message type the client constructs or asserts outside the codec package has a codec; (C12.mirror) for each codec the extracted encode layout (wire kind, field, guard, scale) equals the decode layout, with inverse scaling; (C12.layout) the extracted layout equals the hand-written Seata v1 field table in spec/seata_v1_layout.json; (C12.bound) a string written with an N-bit length prefix after a truncation is truncated to a constant <= 2^(N-1)-1; (C12.frame) CodecManager.Encode prepends the 16-bit type code of the message and Decode dispatches on it and hands in[2:] to the codec. (C12.pure) codecs, codec manager, frame reader/writer and byte helpers consult no package-level state that request paths mutate; (C12.helpers) each length-prefixed string writer of pkg/util/bytes writes, as its prefix, the byte length len(value) of the string it then writes in full, and each reader allocates a fresh buffer of exactly the prefix it read, fills it from the frame and returns a copy (string(p)); the package does not import unsafe. NOT decided: field values beyond the prefix limits other than the truncated message text."
 	r.Trusted = []string{"go/types", "pkg/util/bytes integer helpers (big endian) and dubbogo/gost ByteBuffer Read/Write", "spec/seata_v1_layout.json (hand-written field table)"}
 	w := r.W
 	ci := w.Interface("pkg/protocol/codec", "Codec")
@@ -222,6 +222,8 @@ func checkC12(r *core.Run) {
 	c12Used(r, codecFor)
 	c12Frame(r)
 	c12Helpers(r, "C12.helpers")
+	c12Pure(r, "C12.pure")
+	r.Floor("C12.pure", 60)
 	r.Floor("C12.helpers", 8)
 	r.Floor("C12.registry", 60)
 	r.Floor("C12.mirror", 22)
@@ -748,4 +750,32 @@ func readCopies(w *core.World, f *core.FuncInfo, lengthP types.Object, depth int
 		bad = "pattern length := Read..(); p := make([]byte, length); buf.Read(p); return string(p) not found"
 	}
 	return bad
+}
+
+// c12Pure: codecs, the codec manager and the byte helpers consult no package-level state that request paths mutate
+// (an output buffer taken from a pool and put back while its bytes are still referenced, a shared scratch buffer).
+func c12Pure(r *core.Run, rule string) {
+	w := r.W
+	var fs []*core.FuncInfo
+	if ci := w.Interface("pkg/protocol/codec", "Codec"); ci != nil {
+		for _, n := range w.Implementers(ci) {
+			if n.Obj().Pkg().Path() == pCodec && !w.IsTestFile(n.Obj().Pos()) {
+				fs = append(fs, methodInfo(w, n, "Encode"), methodInfo(w, n, "Decode"))
+			}
+		}
+	}
+	if cm := w.NamedType("pkg/protocol/codec", "CodecManager"); cm != nil {
+		fs = append(fs, methodInfo(w, cm, "Encode"), methodInfo(w, cm, "Decode"))
+	}
+	if h := w.NamedType("pkg/remoting/getty", "RpcPackageHandler"); h != nil {
+		fs = append(fs, methodInfo(w, h, "Read"), methodInfo(w, h, "Write"))
+	}
+	var keep []*core.FuncInfo
+	for _, f := range fs {
+		if f != nil {
+			keep = append(keep, f)
+		}
+	}
+	keep = append(keep, reachFrom(w, keep, pCodec, core.Module+"/pkg/util/bytes")...)
+	pureOfRuntimeState(r, rule, "encoding / decoding of a message", keep, nil)
 }
